@@ -704,9 +704,18 @@ func formatOf(s string) (int, bool) {
 // Compile directories of builds that ended before the compiler ran are not removed by
 // HEAD, and nothing tells their names.  They are found as new, EMPTY /tmp/<10 hex>/
 // directories.  Such a directory may just as well belong to a build of ANOTHER process
-// that is about to write into it, so nothing is removed before it has been seen empty
-// for strayAge; the process waits for that at its end.
-const strayAge = 3 * time.Second
+// that is about to write into it - a build creates its directory and fills it through
+// child processes, which takes seconds on a loaded machine (a first version removed
+// directories seen empty for 3 s and thereby, at load 100, the directory of a build in
+// another shard: "stub: error: /tmp/<id>/<obj>.o: No such file or directory").  A directory
+// is therefore removed only when this process has seen it empty for strayAge AND nothing
+// has touched it for strayIdle; what is younger at the end of the process is left for a
+// later run, which clears empty directories older than strayLitter when it starts.
+const (
+	strayAge    = 3 * time.Second
+	strayIdle   = 30 * time.Second
+	strayLitter = 2 * time.Minute
+)
 
 var (
 	strayMu   sync.Mutex
@@ -743,34 +752,42 @@ func noteStray(before map[string]bool) {
 	sweepStray()
 }
 
-// sweepStray removes the noted directories that are old enough (os.Remove fails, as it
-// must, on anything that is not an empty directory) and returns the age of the youngest
-// one left.
-func sweepStray() (left int, youngest time.Duration) {
-	strayMu.Lock()
-	defer strayMu.Unlock()
-	youngest = strayAge
-	for d, t0 := range strayDirs {
-		if age := time.Since(t0); age >= strayAge {
-			os.Remove(d)
-			delete(strayDirs, d)
-		} else {
-			left++
-			if age < youngest {
-				youngest = age
-			}
-		}
-	}
-	return left, youngest
+func idleFor(d string, min time.Duration) bool {
+	st, err := os.Stat(d)
+	return err == nil && time.Since(st.ModTime()) >= min
 }
 
-func removeStrayDirs() {
-	for {
-		left, youngest := sweepStray()
-		if left == 0 {
-			return
+// sweepStray removes the noted directories that are old and idle enough (os.Remove fails,
+// as it must, on anything that is not an empty directory).
+func sweepStray() {
+	strayMu.Lock()
+	defer strayMu.Unlock()
+	for d, t0 := range strayDirs {
+		if time.Since(t0) >= strayAge && idleFor(d, strayIdle) {
+			os.Remove(d)
+			delete(strayDirs, d)
 		}
-		time.Sleep(strayAge - youngest + 10*time.Millisecond)
+	}
+}
+
+// removeStrayDirs runs at the end of the process: one last sweep, no waiting.
+func removeStrayDirs() {
+	sweepStray()
+	// builds of the other sub-checks that ended before their compiler ran leave empty directories too
+	for n := range compileDirsNow() {
+		if d := "/tmp/" + n; idleFor(d, strayIdle) {
+			os.Remove(d)
+		}
+	}
+}
+
+// removeOldLitter runs at the start of the process: empty compile directories that nothing
+// has touched for strayLitter are what earlier runs had to leave behind.
+func removeOldLitter() {
+	for n := range compileDirsNow() {
+		if d := "/tmp/" + n; idleFor(d, strayLitter) {
+			os.Remove(d)
+		}
 	}
 }
 
